@@ -54,16 +54,16 @@ fn build(s: &Src) -> Buffer {
     // stored below the canvas edge, with cells in other colours and on another font page - they are not part of the picture
     static CROPPED: std::sync::atomic::AtomicU64 = std::sync::atomic::AtomicU64::new(0);
     if CROPPED.fetch_add(1, std::sync::atomic::Ordering::Relaxed) % 6 == 5 {
+        // the layer keeps two more rows than the canvas shows
+        buf.layers[0].set_size((s.w, s.h + 2));
         for y in s.h..s.h + 2 {
             for x in 0..s.w.min(6) {
                 let mut at = TextAttribute::new(12, 1);
                 at.set_font_page(1);
-                let mut line = buf.layers[0].lines.get(y as usize).cloned().unwrap_or_default();
-                line.set_char(x, AttributedChar::new('#', at));
-                if buf.layers[0].lines.len() <= y as usize { buf.layers[0].lines.resize(y as usize + 1, icy_engine::Line::new()); }
-                buf.layers[0].lines[y as usize] = line;
+                buf.layers[0].set_char((x, y), AttributedChar::new('#', at));
             }
         }
+        buf.set_size((s.w, s.h));
     }
     buf
 }
